@@ -305,7 +305,7 @@ func (P *Program) Callers(fn *ssa.Function) []ssa.CallInstruction {
 			}
 			allInstrs(f, func(b *ssa.BasicBlock, ins ssa.Instruction) {
 				if ci, ok := ins.(ssa.CallInstruction); ok {
-					if callee := ci.Common().StaticCallee(); callee != nil {
+					if callee := P.Callee(ci.Common()); callee != nil {
 						P.callers[callee] = append(P.callers[callee], ci)
 					}
 				}
@@ -313,4 +313,56 @@ func (P *Program) Callers(fn *ssa.Function) []ssa.CallInstruction {
 		}
 	}
 	return P.callers[fn]
+}
+
+// Callee resolves the function a call invokes: the static callee, or - for a call through a local variable that
+// only ever holds one function literal (`add := func(...){...}; add(x)`, also when captured by another closure) -
+// that literal.
+func (P *Program) Callee(c *ssa.CallCommon) *ssa.Function {
+	if sc := c.StaticCallee(); sc != nil {
+		return sc
+	}
+	if c.IsInvoke() {
+		return nil
+	}
+	return P.closureValue(c.Value, 0)
+}
+
+func (P *Program) closureValue(v ssa.Value, depth int) *ssa.Function {
+	if depth > 6 {
+		return nil
+	}
+	switch x := v.(type) {
+	case *ssa.MakeClosure:
+		f, _ := x.Fn.(*ssa.Function)
+		return f
+	case *ssa.Function:
+		return x
+	case *ssa.FreeVar:
+		if b := P.freeVarBinding(x); b != nil {
+			return P.closureValue(b, depth+1)
+		}
+	case *ssa.UnOp:
+		if x.Op != token.MUL {
+			return nil
+		}
+		cell := P.cellOf(x.X)
+		if cell == nil {
+			return nil
+		}
+		vals, _, escaped := P.CellStores(cell)
+		if escaped || len(vals) == 0 {
+			return nil
+		}
+		var f *ssa.Function
+		for _, s := range vals {
+			g := P.closureValue(s, depth+1)
+			if g == nil || (f != nil && g != f) {
+				return nil
+			}
+			f = g
+		}
+		return f
+	}
+	return nil
 }
